@@ -125,7 +125,7 @@ class Gen:
         if not data:
             return None
         st = os.lstat(src)
-        decoy = self.rng.random() < 0.25 and len(data) >= 1
+        decoy = self.rng.random() < (0.4 if self.profile == "c19" else 0.25) and len(data) >= 1
         if decoy:
             data = bytes([data[0] ^ 0x5a]) + data[1:]          # same name, size, stamp - other content
         dst = self.a.path(e, n)
@@ -180,6 +180,40 @@ class Gen:
         vals = [self.val() for _ in range(sz // arr.BS)]
         self.a.write_file(d, n, vals, mtime=self.stamp())
         return "rewrite %d/%s same size %r" % (d, n, vals)
+
+    def op_replace(self):
+        """a recorded file is deleted and another name gets a new file of the same size (it takes over the positions)"""
+        d = self.rng.randrange(self.conf.nd)
+        fl = self._top_files(d)
+        if not fl:
+            return None
+        n = self.rng.choice(fl)
+        sz = os.path.getsize(self.a.path(d, n))
+        nb = (sz + arr.BS - 1) // arr.BS
+        if nb == 0:
+            return None
+        m = self.rng.choice([x for x in self.names if x != n])
+        self.a.remove(d, n)
+        vals = self.content(nb)
+        self.a.write_file(d, m, vals, mtime=self.stamp())
+        return "delete %d/%s, write %d/%s %r" % (d, n, d, m, vals)
+
+    def op_samesec(self):
+        """rewrite in place with other content and the same size within the same second: only the sub-second part of the time
+        stamp changes (the recorded one is zero for most files here)"""
+        st = self.recorded()
+        cands = [(int(d), n, f) for d in self.rec.D for n, f in st["cf"][d].items()
+                 if n in st["fs"][d] and f["sz"] > 0 and f["sz"] % arr.BS == 0 and st["fs"][d][n]["mt"] == f["mt"] and f["mt"][0] >= 0
+                 and "/" not in n and n != "zz"]
+        if not cands:
+            return None
+        d, n, f = self.rng.choice(cands)
+        vals = [self.val() for _ in range(f["sz"] // arr.BS)]
+        ns = self.rng.choice([1, 250000000, 999999999])
+        if ns == f["mt"][1]:
+            ns = 5
+        self.a.overwrite_keep_inode(d, n, vals, mtime=f["mt"][0], mtime_ns=ns)
+        return "rewrite %d/%s in place, same size, same second (.%09d) %r" % (d, n, ns, vals)
 
     def op_rename(self):
         d = self.rng.randrange(self.conf.nd)
@@ -324,10 +358,14 @@ class Gen:
             for n, f in st["cf"][d].items():
                 if not f["bl"] or self.rng.random() < 0.3:
                     continue
-                vals = [self._unval(b["h"]) if b["st"] != "CHG" and b["h"][:1] in "vs" else None for b in f["bl"]]
+                vals = [self._unval(b["h"]) if b["h"][:1] in "vs" and b["h"][1:].isdigit() else None for b in f["bl"]]
                 if any(v is None for v in vals):
                     continue
-                data = b"".join(self.a.vbytes(v) for v in vals)
+                # for a block recorded as changed (CHG) the value is the PAST content of its position: a file made of such
+                # values with the size and stamp of the new file is a decoy that fix must never take for the new content
+                data = b"".join(self.a.vbytes(v) for v in vals)[:f["sz"]]
+                if len(data) < f["sz"]:
+                    data += b"\0" * (f["sz"] - len(data))
                 if self.rng.random() < 0.35:
                     data = bytes([data[0] ^ 0x33]) + data[1:]       # decoy
                 p = os.path.join(imp, "i%d" % k); k += 1
@@ -454,7 +492,7 @@ class Gen:
         if self.ranges and self.rng.random() < 0.25:
             flags += self._range()
         if self.profile == "c19":
-            if self.rng.random() < 0.3 and not mid:
+            if self.rng.random() < 0.4 and not mid:
                 flags.append("-h")
             if "-h" not in flags and "-F" not in flags and "-R" not in flags and self.rng.random() < 0.15:      # -N excludes -h, -F, -R
                 flags.append("--force-nocopy")
@@ -469,7 +507,11 @@ class Gen:
             if self.ranges and self.rng.random() < 0.15:
                 fl += self._range()
             rules = ["pread,/p,0,shortread,%d" % self.rng.choice([1, 700, 1023])] if self.profile == "detect" and self.rng.random() < 0.3 else None
-            return "check %s%s -> %s" % (fl, " short reads" if rules else "", self.rec.check(*fl, rules=rules)[1]["exit"])
+            kw = {}
+            if self.filters and self.rng.random() < 0.6:
+                kw["filt"] = self._filter()
+            return "check %s%s%s -> %s" % (fl, " short reads" if rules else "", " filtered" if kw else "",
+                                           self.rec.check(*fl, rules=rules, **kw)[1]["exit"])
         if name == "fix":
             fl = self._range() if (self.ranges and self.rng.random() < 0.25) else []
             kw = {}
@@ -517,11 +559,11 @@ class Gen:
                  ("sync", 28), ("check", 6), ("fix", 8), ("diff", 4)],
         "c11": [("add", 10), ("samesize", 5), ("append", 5), ("truncate", 4), ("delete", 6), ("rename", 8), ("move", 6), ("copy", 4),
                 ("replace_kind", 6), ("symlink", 6), ("hardlink", 5), ("dir", 5), ("touch", 4), ("nsec", 2), ("touchcmd", 2),
-                ("restore", 6), ("sync", 16), ("diff", 10), ("list", 6), ("check", 4)],
-        "c19": [("add", 12), ("copy", 16), ("move", 10), ("nsec", 6), ("touch", 2), ("delete", 6), ("corrupt", 3), ("lose_disk", 3),
+                ("restore", 6), ("samesec", 4), ("sync", 16), ("diff", 10), ("list", 6), ("check", 4)],
+        "c19": [("samesec", 6), ("replace", 6), ("add", 12), ("copy", 16), ("move", 10), ("nsec", 6), ("touch", 2), ("delete", 6), ("corrupt", 3), ("lose_disk", 3),
                 ("sync", 26), ("check", 5), ("fix", 12), ("diff", 2)],
         "filters": [("add", 12), ("touch", 2), ("delete", 10), ("corrupt", 14), ("corrupt_burst", 3), ("corrupt_parity", 5),
-                    ("lose_disk", 3), ("lose_parity", 3), ("sync", 14), ("check", 4), ("fix", 22), ("scrub", 14), ("diff", 1)],
+                    ("lose_disk", 3), ("lose_parity", 3), ("sync", 14), ("check", 12), ("fix", 22), ("scrub", 14), ("diff", 1)],
         "rehash": [("add", 14), ("copy", 5), ("touch", 2), ("delete", 8), ("corrupt", 6), ("corrupt_parity", 2), ("lose_disk", 2),
                    ("sync", 20), ("check", 6), ("fix", 8), ("scrub", 12), ("diff", 2), ("rehashcmd", 10)],
         "detect": [("rehashcmd", 2), ("add", 8), ("delete", 3), ("corrupt", 14), ("corrupt_burst", 10), ("corrupt_parity", 14), ("sync", 14),
